@@ -1,6 +1,7 @@
 package faults
 
 import (
+	"sort"
 	"bytes"
 	"fmt"
 	"strconv"
@@ -16,6 +17,36 @@ import (
 var badInts = []pdfw.Obj{0, -1, 2147483648, 9223372036854775807, pdfw.Raw("1" + strings.Repeat("0", 400)), 1000000, -2147483649}
 
 var repeatTokens = []string{"q ", "[ ", "<< ", "( ", "BT ", "q 1 0 0 1 0 0 cm ", "/Span << /MCID 0 >> BDC "}
+
+var addKeys = []string{"Extends", "Parent", "Prev", "Next", "First", "Kids", "ToUnicode", "Resources", "Length", "XRefStm"}
+
+const numEntryVariants = 10
+
+// entryVariant damages one field of a cross-reference entry (typ 0 free, 1 plain, 2 in
+// an object stream).
+func entryVariant(v, num, typ, a, b int) (int, int, int) {
+	switch v {
+	case 0:
+		return 0, a, b
+	case 1:
+		return 1, 0, b
+	case 2:
+		return 2, num, 0 // stored in an object stream that is the object itself
+	case 3:
+		return 3, a, b // a type the format does not define
+	case 4:
+		return typ, a + 1, b
+	case 5:
+		return typ, 1 << 31, b
+	case 6:
+		return typ, a, b + 1
+	case 7:
+		return typ, a, 65535
+	case 8:
+		return typ, num, b
+	}
+	return typ, 0, 0
+}
 
 var words16 = []uint16{0xFFFF, 0x0000, 0x8000, 0x7FFF}
 
@@ -50,7 +81,12 @@ func EnumPDFFields(spec pdfw.DocSpec) []Fault {
 		recs = append(recs, recorded{num, kind, o})
 		return o
 	}
-	g := pdfw.GenerateHooked(spec, hook, nil)
+	type xent struct{ rev, num, typ, a, b int }
+	var ents []xent
+	g := pdfw.GenerateHooks(spec, pdfw.Hooks{Obj: hook, Entry: func(rev, num, typ, a, b int) (int, int, int) {
+		ents = append(ents, xent{rev, num, typ, a, b})
+		return typ, a, b
+	}})
 	root := g.Built.Root.Num
 	members := map[int][]int{}
 	for _, model := range g.Built.Model {
@@ -118,6 +154,16 @@ func EnumPDFFields(spec pdfw.DocSpec) []Fault {
 			if rc.kind == "trailer" {
 				k = "trailer-field"
 			}
+			if d, isDict := rc.obj.(pdfw.Dict); isDict && rc.kind == "obj" {
+				// a reference the format allows but the object did not have, pointing at the object
+				// itself: whatever follows such keys (/Extends of object streams, /Parent, /Prev,
+				// /Next, /First, ...) must not follow them for ever
+				for _, key := range addKeys {
+					if d.Get(key) == nil {
+						out = append(out, Fault{Layer: "pdfobj", Kind: "field-add", A: int64(rc.num), B: int64(rc.num), S: key})
+					}
+				}
+			}
 			walk(rc.obj, "", func(path string, v pdfw.Obj) {
 				for i := 0; i < variants(v, root); i++ {
 					out = append(out, Fault{Layer: "pdfobj", Kind: k, A: int64(rc.num), B: int64(i), S: path})
@@ -131,6 +177,18 @@ func EnumPDFFields(spec pdfw.DocSpec) []Fault {
 					}
 				}
 			})
+		}
+	}
+	// every field of every cross-reference entry, whichever kind of section carries it
+	sort.Slice(ents, func(i, j int) bool {
+		if ents[i].rev != ents[j].rev {
+			return ents[i].rev < ents[j].rev
+		}
+		return ents[i].num < ents[j].num
+	})
+	for _, e := range ents {
+		for v := 0; v < numEntryVariants; v++ {
+			out = append(out, Fault{Layer: "pdfobj", Kind: "xref-entry", A: int64(e.num), B: int64(e.rev)<<8 | int64(v)})
 		}
 	}
 	for rev := 0; rev <= spec.Revisions; rev++ {
@@ -153,7 +211,18 @@ func EnumPDFPairs(spec pdfw.DocSpec) [][]Fault {
 		recs = append(recs, recorded{num, kind, o})
 		return o
 	}
-	pdfw.GenerateHooked(spec, hook, nil)
+	type xent struct{ rev, num, typ, a, b int }
+	var ents []xent
+	pdfw.GenerateHooks(spec, pdfw.Hooks{Obj: hook, Entry: func(rev, num, typ, a, b int) (int, int, int) {
+		ents = append(ents, xent{rev, num, typ, a, b})
+		return typ, a, b
+	}})
+	sort.Slice(ents, func(i, j int) bool {
+		if ents[i].rev != ents[j].rev {
+			return ents[i].rev < ents[j].rev
+		}
+		return ents[i].num < ents[j].num
+	})
 	plain := map[int][]byte{}
 	hasRaw := map[int]bool{}
 	dicts := map[int]pdfw.Obj{}
@@ -196,6 +265,35 @@ func EnumPDFPairs(spec pdfw.DocSpec) [][]Fault {
 		target int
 	}
 	var out [][]Fault
+	// object streams chained by /Extends (to themselves, to each other) x a member whose
+	// cross-reference entry names the wrong position in its stream: the lookup that has to
+	// search then searches along the chain
+	var containers []int
+	for _, e := range ents {
+		if e.typ == 2 {
+			known := false
+			for _, c := range containers {
+				known = known || c == e.a
+			}
+			if !known {
+				containers = append(containers, e.a)
+			}
+		}
+	}
+	for _, c := range containers {
+		for _, tg := range containers {
+			mk := Fault{Layer: "pdfobj", Kind: "field-add", A: int64(c), B: int64(tg), S: "Extends"}
+			n := 0
+			for _, e := range ents {
+				if e.typ == 2 && e.a == c && n < 4 {
+					n++
+					for _, v := range []int{6, 7} {
+						out = append(out, []Fault{mk, {Layer: "pdfobj", Kind: "xref-entry", A: int64(e.num), B: int64(e.rev)<<8 | int64(v)}})
+					}
+				}
+			}
+		}
+	}
 	seen := map[int]bool{}
 	for _, rc := range recs {
 		if rc.kind != "obj" || seen[rc.num] {
@@ -460,6 +558,14 @@ func ApplyPDFFields(spec pdfw.DocSpec, fs []Fault) []byte {
 					b[off], b[off+1], b[off+2], b[off+3] = byte(w>>24), byte(w>>16), byte(w>>8), byte(w)
 				}
 				o = pdfw.Str{B: b}
+			case f.Kind == "field-add" && kind == "obj":
+				if d, ok := o.(pdfw.Dict); ok {
+					var v pdfw.Obj = pdfw.Ref{Num: int(f.B)}
+					if f.S == "Kids" {
+						v = pdfw.Arr{v}
+					}
+					o = append(append(pdfw.Dict{}, d...), pdfw.KV{K: f.S, V: v})
+				}
 			case f.Kind == "field-ref" && kind == "obj":
 				steps := strings.Split(strings.TrimPrefix(f.S, "/"), "/")
 				no, _ := replaceAt(o, steps, pdfw.Ref{Num: int(f.B)})
@@ -516,7 +622,21 @@ func ApplyPDFFields(spec pdfw.DocSpec, fs []Fault) []byte {
 	}
 	// the catalog number is needed for "retarget to the root"
 	root = pdfw.Generate(spec).Built.Root.Num
-	return pdfw.GenerateHooked(spec, hook, prev).Built.Bytes
+	var entry func(rev, num, typ, a, b int) (int, int, int)
+	for _, f := range fs {
+		if f.Layer == "pdfobj" && f.Kind == "xref-entry" {
+			entry = func(rev, num, typ, a, b int) (int, int, int) {
+				for _, f := range fs {
+					if f.Layer == "pdfobj" && f.Kind == "xref-entry" && int(f.A) == num && int(f.B>>8) == rev {
+						typ, a, b = entryVariant(int(f.B&0xff), num, typ, a, b)
+					}
+				}
+				return typ, a, b
+			}
+			break
+		}
+	}
+	return pdfw.GenerateHooks(spec, pdfw.Hooks{Obj: hook, Prev: prev, Entry: entry}).Built.Bytes
 }
 
 var _ = fmt.Sprint
